@@ -153,7 +153,10 @@ Definition clean_bytes (s : string) : string :=
    SecureJoinVFS (v0.4.1) on a root below which nothing is a symlink: refuses a root with a
    ".." component, resolves the unsafe path as if root were "/", and returns
    filepath.Join(root, filepath.Join("/", currentPath)). *)
-Inductive cj_err2 := CJ2Colon | CJ2DotDot | CJ2Abs | CJ2Root.
+Inductive cj_err2 := CJ2Colon | CJ2DotDot | CJ2Abs | CJ2Root | CJ2Lstat.
+
+Definition nul : ascii := Ascii.zero.
+Definition has_nul (s : string) : bool := contains_char nul s.
 
 Definition secure_join_lex2 (root unsafe : string) : option string :=
   if has_dotdot root then None else
@@ -167,5 +170,7 @@ Definition clean_join2 (root dest : string) : cj_err2 + string :=
   if is_abs dest then inl CJ2Abs else
   match secure_join_lex2 (path_clean root) dest with
   | None => inl CJ2Root
-  | Some p => inr p
+  | Some p =>
+      (* SecureJoin calls Lstat on every component it appends: a NUL byte is EINVAL *)
+      if has_nul dest then inl CJ2Lstat else inr p
   end.
